@@ -63,7 +63,7 @@ chk("C16", "Coq theorems about the manual reference-counting protocol (Model/Arc
 chk("C04", "PARTIAL. Coq theorems for the decisions sonic-rs takes before a serde visitor is called: integer literals reach the visitor as exactly their value (no wrap, no truncation), unknown fields are stepped over by the validating skipper (a well-formed value), string tokens end at their quote. The agreement with serde_json itself is decided by the correspondence: 44 target types x type-directed matching / near-matching / mismatching texts x {from_str, from_slice}, Ok value / Err compared with serde_json on the same type.",
     "serde-derive output and serde_json 1.0.151 are third-party: their behaviour is the reference, not modelled. Known finding F21 (byte buffers) is recorded.",
     "Coq proof of the number/skip/string decisions + differential correspondence against the reference implementation named by the property")
-chk("C19", "Coq theorems: Object equality is symmetric for duplicate-free objects (refuted with duplicates: F7, recorded); the text route is lossless (parse of print). Tie: for 44 types to_value/from_value/to_string/from_str commute on generated values; for 2500 generated values of the whole serde data model to_value denotes the value (Model/SerVal.v, f32 widened exactly) and equals the DOM of the text except for f32 (F24, recorded) and fails exactly for integers beyond 64 bits and non-finite floats; equality laws on 1500 triples of DOM values built three ways.",
+chk("C19", "Coq theorems: Object equality is symmetric for duplicate-free objects (refuted with duplicates: F7, recorded); the text route is lossless (parse of print). Tie: for 44 types to_value/from_value/to_string/from_str commute on generated values; for 2500 generated values of the whole serde data model to_value denotes the value (Model/SerVal.v, f32 widened exactly) and equals the DOM of the text except for f32 (F24, recorded) and fails exactly for integers beyond 64 bits and non-finite floats; equality laws on 1500 triples of DOM values built three ways; the equality model of the theorems (obj_eq, extracted) is run against `==` of parsed documents in both directions, repeated names included (the asymmetric outcomes of F7 are predicted case by case).",
     "PARTIAL as C04: the in-memory Serializer/Deserializer for Value are tied by the correspondence, not transcribed.",
     "Coq proof (pigeonhole argument for equality, round trip) + model-vs-code correspondence")
 
